@@ -1015,7 +1015,20 @@ func (s *tstate) step(in ssa.Instruction) {
 				s.assume(konst(0), r, 0)
 				s.assume(r, konst(b.off), 0)
 			}
+		case token.SHL:
+			// a signed shift count that is negative panics at run time
+			if yb, ok := x.Y.Type().Underlying().(*types.Basic); ok && yb.Info()&types.IsUnsigned == 0 {
+				if !(b.t == 0 && b.off >= 0) {
+					an.ob("shift", x, roleOf(l, x.Y, "", 0), s.entails(konst(0), b, 0), "shift count may be negative (run-time panic: negative shift amount)")
+				}
+			}
+			s.intOf(x)
 		case token.SHR:
+			if yb, ok := x.Y.Type().Underlying().(*types.Basic); ok && yb.Info()&types.IsUnsigned == 0 {
+				if !(b.t == 0 && b.off >= 0) {
+					an.ob("shift", x, roleOf(l, x.Y, "", 0), s.entails(konst(0), b, 0), "shift count may be negative (run-time panic: negative shift amount)")
+				}
+			}
 			r := s.intOf(x)
 			if s.entails(konst(0), a, 0) {
 				s.assume(konst(0), r, 0)
